@@ -404,3 +404,14 @@ def w5_blanks(ctx):
 
 
 RULES = [('W1', w1_case), ('W1n', w1b_names), ('W2', w2_noise), ('W3', w3_comment_first), ('W4', w4_claimed), ('W5', w5_blanks)]
+
+
+def w6_lexical(ctx):
+    """W6 connective keywords reach the rules as plain words (E7b lexical competition model: month stage, regex families in TOKEN_REGEX_PARSER order with first-claim-wins,
+    alias stage; samples generated from the configuration)"""
+    from ..lexrules import run_samples, number_samples, based_samples, money_samples, unit_samples, month_samples, zone_samples, duration_samples, percent_samples, keyword_samples
+    ctx.rule('W6', 'connective keywords reach the rules as plain words', floor=10)
+    run_samples(ctx, 'W6', keyword_samples(ctx))
+
+
+RULES.append(('W6', w6_lexical))
